@@ -89,8 +89,15 @@ func propC06(rt *rapid.T, t *testing.T, c *ev.Collector) {
 		for d := range synced {
 			slack[d] = 0
 		}
+		// a multi-message transaction performs several operations in one step: each of them is a
+		// rounding event on the validators it touches
+		ops := int64(1)
+		if a.lastOps > 1 {
+			ops = int64(a.lastOps)
+		}
+		a.lastOps = 0
 		for d, n := range events {
-			slack[d] += int64(n)
+			slack[d] += int64(n) * ops
 		}
 		bounds := stake.bounds()
 		dels := map[string]bool{}
